@@ -1,6 +1,7 @@
 (* C04 — CRT lift returns the unique representative and is inverse to reduction.  Statements only (CRT.v, CRTExec.v). *)
 From Coq Require Import ZArith Znumtheory List.
-From NTT Require Import CRT CRTExec.
+From NTT Require Import CRT CRTExec CRTClosed.
+From NTT.gen Require Import Params.
 Import ListNotations.
 Local Open Scope Z_scope.
 
@@ -41,3 +42,22 @@ Print Assumptions C04_reduceQ.
 
 Example C04_nonvacuous : poly2mpz_coef 32 [1073479681; 1072496641; 1071513601] [1073479680; 0; 5] <> None.
 Proof. exact crt_example. Qed.
+
+(* without the side condition: pairwise coprime moduli below 2^w (the extended-Euclid fuel is adequate, so every inverse is found) *)
+Theorem C04_lift_total : forall w ps, 0 <= w -> ps <> [] -> (forall i, (i < length ps)%nat -> 1 < nth i ps 1 < 2 ^ w) ->
+  (forall a b, (a < length ps)%nat -> (b < length ps)%nat -> a <> b -> rel_prime (nth a ps 1) (nth b ps 1)) ->
+  forall rs, length rs = length ps -> (forall i, (i < length ps)%nat -> 0 <= nth i rs 0 < nth i ps 1) ->
+  exists x, poly2mpz_coef w ps rs = Some x /\ 0 <= x < prod ps /\ forall j, (j < length ps)%nat -> x mod nth j ps 1 = nth j rs 0.
+Proof. exact poly2mpz_total. Qed.
+Print Assumptions C04_lift_total.
+
+(* closed over the tables generated on this run: every non-empty prefix of every table (= every instantiable number of moduli) *)
+Theorem C04_lift_all_tables :
+  forall (wb : Z * Z * list (Z * Z * Z * Z)), In wb [(w16, bits16, rows16); (w32, bits32, rows32); (w64, bits64, rows64)] ->
+  let '(w, bits, rows) := wb in
+  forall m, basis m rows <> [] ->
+  forall rs, length rs = length (basis m rows) -> (forall i, (i < length (basis m rows))%nat -> 0 <= nth i rs 0 < nth i (basis m rows) 1) ->
+  exists x, poly2mpz_coef w (basis m rows) rs = Some x /\ 0 <= x < prod (basis m rows) /\
+            forall j, (j < length (basis m rows))%nat -> x mod nth j (basis m rows) 1 = nth j rs 0.
+Proof. exact lift_tables. Qed.
+Print Assumptions C04_lift_all_tables.
